@@ -63,6 +63,7 @@ func main() {
 	cl := &caseList{dropped: map[string]int{}}
 	if r.Thorough() {
 		spinCap = 25
+		wideStress = true
 	}
 	genCorpus(cl)
 	genNDP(cl, rng.Fork(), scale)
@@ -81,6 +82,11 @@ func main() {
 	genLLMNR(cl, rng.Fork(), scale)
 	genUPNP(cl, rng.Fork(), scale)
 	genOther(cl, rng.Fork(), scale)
+	if r.Thorough() {
+		genExhaustive(cl, 3) // all strings of length <= 3 over 6 symbols, per decoder
+	} else {
+		genExhaustive(cl, 2)
+	}
 
 	// every endless loop costs its time-out: once the budget of observed hangs is used up the
 	// remaining cases of hang-prone classes are dropped (deterministic: fixed chunks, fixed order)
